@@ -10,6 +10,7 @@ import (
 	"path/filepath"
 	"sort"
 
+	"github.com/luno/workflow/verifharness/adapters"
 	"github.com/luno/workflow/verifharness/leandrv"
 	"github.com/luno/workflow/verifharness/pure"
 	"github.com/luno/workflow/verifharness/report"
@@ -20,6 +21,7 @@ import (
 type suiteFn func(d *leandrv.Driver, r *rng.R, res *report.Result, thorough bool) error
 
 var suites = map[string]suiteFn{
+	"mem-recordstore": adapters.RecordStoreSuite(adapters.MemRecordStore, "C17"),
 	"pure-routing": pure.Routing,
 	"pure-shards":  pure.Shards,
 	"pure-ctl":     pure.Controller,
